@@ -1,6 +1,11 @@
 #!/bin/sh
 # re-runs the false-alarm test: every kept behaviour-preserving refactoring against all quick checks (4 in parallel)
 cd "$(dirname "$0")/.." || exit 2
+# what the checks report on the unpatched tree at the old base (defects repaired since): computed once per sweep
+rm -f /tmp/cpverif_refac_base_23fece6.json
+python3 -c "
+import sys, json; sys.path.insert(0, 'tools'); import refactor_eval
+refactor_eval.base_keys('23fece6', [c['property_id'] for c in json.load(open('MANIFEST.json'))['checks']])"
 for d in refactorings/C*-*; do
   ( REFACTOR_BASE=23fece6 tools/refactor_eval.py $d > /tmp/refac_$(basename $d).json 2>&1; python3 -c "
 import json
